@@ -22,7 +22,7 @@ ASSUMPTIONS = ["restore_cpgraph always extracts under /tmp; the extracted direct
                "breakdown frames are compared up to row order and dtype"]
 FLOAT_KEYS = ["files"]          # fractional-time-unit workload class (hv/shard.py)
 PLAN = {"quick": {"shards": 16, "cases": 192, "timeout": 900}, "thorough": {"shards": 16, "cases": 2000, "timeout": 3400}}
-FLOORS = {"quick": {"distinct_nontrivial": 60, "cycles": 250, "graphs": 120, "clamped_edge_graphs": 10, "breakdowns_compared": 250, "graphs_with_csv_hostile_names": 30, "batch_restores": 60},
+FLOORS = {"quick": {"distinct_nontrivial": 60, "cycles": 250, "graphs": 120, "clamped_edge_graphs": 8, "breakdowns_compared": 250, "graphs_with_csv_hostile_names": 30, "batch_restores": 60},
           "thorough": {"distinct_nontrivial": 900, "cycles": 4000, "graphs": 1900, "clamped_edge_graphs": 150, "breakdowns_compared": 4000, "graphs_with_csv_hostile_names": 500, "batch_restores": 900}}
 
 
@@ -37,7 +37,7 @@ def gen_case(rnd, tier: str, i: Any) -> Dict[str, Any]:
     c = cpdrv.gen_case(rnd, tier, i, annotation_nest=rnd.random() < 0.6, **over)
     c["odd_names"] = bool(over)
     c["cycles"] = rnd.choice([1, 2, 3])
-    if rnd.random() < 0.3:
+    if rnd.random() < 0.5:
         # child operator ending 1us after its parent on some host thread
         edits = []
         for fn, tr in c["files"].items():
